@@ -12,6 +12,9 @@ for d in sorted(glob.glob(os.path.join(root, "seeded", "*", ""))):
         ents = sorted({re.match(r"violation: (\w+)", l).group(1) for l in v.get("lines", []) if re.match(r"violation: (\w+)", l)})
         if v.get("exit") == 1:
             caught.append("%s (%s)" % (k, ", ".join(ents)) if ents else k)
+    tt = m.get("thorough_tier")
+    if not caught and tt:
+        caught.append("%s thorough tier only (%s)" % (tt["check"], tt["entry"]))
     what = m.get("what", "").replace("|", "/").replace("\n", " ")
     if len(what) > 230:
         what = what[:227] + "..."
